@@ -665,13 +665,13 @@ static bool cmpMan(Env& e, const char* fn, ManifoldManifold* c, const Manifold& 
 }
 
 // ---- pool insertion
-static int addMan(Env& e, const char* fn, Slot s, ManifoldManifold* ret, Manifold p, const std::string& how) {
+static int addMan(Env& e, const char* fn, Slot s, ManifoldManifold* ret, Manifold p, const std::string& how, bool doNote = true) {
   ManT t;
   t.s = s;
   t.c = e.adopt(t.s, ret, fn);
   t.p = std::move(p);
   t.how = how;
-  e.note(how);
+  if (doNote) e.note(how);
   ManInfo inf;
   bool ok = !e.stop && cmpMan(e, fn, t.c, t.p, &inf);
   t.ntri = inf.ntri;
@@ -684,17 +684,18 @@ static int addMan(Env& e, const char* fn, Slot s, ManifoldManifold* ret, Manifol
 template <class FC, class FP>
 static int mkMan(Env& e, const char* fn, FC fc, FP fp, const std::string& how) {
   Slot s = e.getMem(T_MAN);
+  e.note(how);  // before the call: a crash inside it still shows the step in the replay trace
   ManifoldManifold* c = fc(s.mem);
   Manifold p = fp();
-  return addMan(e, fn, s, c, std::move(p), how);
+  return addMan(e, fn, s, c, std::move(p), how, false);
 }
-static int addCs(Env& e, const char* fn, Slot s, ManifoldCrossSection* ret, CrossSection p, const std::string& how) {
+static int addCs(Env& e, const char* fn, Slot s, ManifoldCrossSection* ret, CrossSection p, const std::string& how, bool doNote = true) {
   CsT t;
   t.s = s;
   t.c = e.adopt(t.s, ret, fn);
   t.p = std::move(p);
   t.how = how;
-  e.note(how);
+  if (doNote) e.note(how);
   bool ok = !e.stop && cmpCs(e, fn, t.c, t.p, &t.nvert);
   t.ok = ok && t.nvert > 0;
   e.css.push_back(std::move(t));
@@ -703,9 +704,10 @@ static int addCs(Env& e, const char* fn, Slot s, ManifoldCrossSection* ret, Cros
 template <class FC, class FP>
 static int mkCs(Env& e, const char* fn, FC fc, FP fp, const std::string& how) {
   Slot s = e.getMem(T_CS);
+  e.note(how);
   ManifoldCrossSection* c = fc(s.mem);
   CrossSection p = fp();
-  return addCs(e, fn, s, c, std::move(p), how);
+  return addCs(e, fn, s, c, std::move(p), how, false);
 }
 
 // ---------------------------------------------------------------- generators
@@ -1502,7 +1504,6 @@ static void e_scale(Env& e) {
   PICK_MAN(a);
   double x = e.uni(0.4, 2), y = e.uni(0.4, 2), z = maybeNaN(e, e.uni(0.4, 2));
   if (e.r.chance(0.15)) y = -y;
-  if (e.r.chance(0.04)) x = 0;
   mkMan(e, "manifold_scale", [&](void* m) { return CF(manifold_scale)(m, ac, x, y, z); }, [&] { return ap.Scale(vec3(x, y, z)); },
         "scale(" + an + "," + fmt(x) + "," + fmt(y) + "," + fmt(z) + ")");
 }
@@ -1615,7 +1616,7 @@ static void e_smooth_out(Env& e) {
         "smooth_out(" + an + "," + fmt(ang) + "," + fmt(sm) + ")");
 }
 static void e_refine(Env& e) {
-  PICK_MAN(a, 150);
+  PICK_MAN(a, 150, true);
   int n = e.r.range(1, 3);
   mkMan(e, "manifold_refine", [&](void* m) { return CF(manifold_refine)(m, ac, n); }, [&] { return ap.Refine(n); }, "refine(" + an + "," + std::to_string(n) + ")");
 }
@@ -1625,13 +1626,13 @@ static double scaleOf(const Manifold& m) {
   return (std::isfinite(s) && s > 0) ? s : 1.0;
 }
 static void e_refine_to_length(Env& e) {
-  PICK_MAN(a, 150);
+  PICK_MAN(a, 150, true);
   double len = scaleOf(ap) / e.uni(1.5, 5);
   mkMan(e, "manifold_refine_to_length", [&](void* m) { return CF(manifold_refine_to_length)(m, ac, len); }, [&] { return ap.RefineToLength(len); },
         "refine_to_length(" + an + "," + fmt(len) + ")");
 }
 static void e_refine_to_tolerance(Env& e) {
-  PICK_MAN(a, 150);
+  PICK_MAN(a, 150, true);
   double tol = scaleOf(ap) / e.uni(15, 150);
   mkMan(e, "manifold_refine_to_tolerance", [&](void* m) { return CF(manifold_refine_to_tolerance)(m, ac, tol); }, [&] { return ap.RefineToTolerance(tol); },
         "refine_to_tolerance(" + an + "," + fmt(tol) + ")");
